@@ -20,9 +20,8 @@ ASSUMED (owned by other areas; named in the evidence of every unit that uses the
     next n octets of the stream and ADVANCES the object, XOF.copy() is a fresh object in the same state (C03/C19, bounded/hashes.py)
 """
 from vf.pyvc.contracts import Contract, ClassContract, apply_contract, fresh_object, eval_clause, _as_z3
-from vf.pyvc.interp import exc
 from vf.pyvc.values import Ref, Unsupported
-from .sig_common import common_registry, add_points, new_integer, INT, OINT, PT, CURVE
+from .sig_common import common_registry, add_points, new_integer, OINT, PT, CURVE
 
 E = 'Crypto.Signature.eddsa.'
 SCH = E + 'EdDSASigScheme'
@@ -88,7 +87,7 @@ KEYSIDE = 'EdDSA key side (C05/C06/C08; bounded/ec.py)'
 HASHES = 'hash primitives uninterpreted (C03; bounded/hashes.py)'
 
 
-def new_ed_key(Eng, st, point, cid=None):
+def new_ed_key(Eng, st, point):
     """a fresh public EccKey whose point is `point` (same Python object) on the curve of that point"""
     ref = fresh_object(Eng, st, KEY, 'key')
     h = st.heap[ref.oid]
@@ -295,6 +294,11 @@ def scheme_new():
                     modifies={'key._point': 'obj:' + PT}, options=dict(OPTS))
 
 
+def can_sign():
+    return Contract(SCH + '.can_sign', params={}, raises={}, ensures={'private': 'result == (self._key._d is not None)'},
+                    modifies=[], options=dict(OPTS))
+
+
 def verify_leaf(c):
     fn = {'Ed25519': '_verify_ed25519', 'Ed448': '_verify_ed448'}[c]
     return Contract(SCH + '.' + fn, params={'msg_or_hash': 'buffer|obj:' + HCLS[c], 'signature': 'bytes', 'ph': 'enum(False, True)'},
@@ -351,6 +355,7 @@ def registry(curve=None):
     reg.add(import_private())
     reg.add(scheme_init())
     reg.add(scheme_new())
+    reg.add(can_sign())
     reg.add(verify_top())
     reg.add(sign_top())
     return reg
@@ -371,5 +376,5 @@ def units(prop, tier):
     out.append(pyvc_unit(prop, 'sig.eddsa.sign', registry, [SCH + '.sign']))
     if prop == 'C04':
         out.append(pyvc_unit(prop, 'sig.eddsa.import', registry, [E + 'import_public_key', E + 'import_private_key']))
-        out.append(pyvc_unit(prop, 'sig.eddsa.new', registry, [SCH + '.__init__', E + 'new']))
+        out.append(pyvc_unit(prop, 'sig.eddsa.new', registry, [SCH + '.__init__', E + 'new', SCH + '.can_sign']))
     return out
